@@ -63,12 +63,28 @@ func addOutputNodesCase(c *Corr, src string, replay interface{}) {
 	c.add(sb.String(), strings.Join(ids, ",")+" | "+strings.Join(tags, ","), replay)
 }
 
+// addDedupeCase: RemoveDuplicateAttributes (the converter applies it to its clone first)
+func addDedupeCase(c *Corr, src string, replay interface{}) {
+	d := parseDoc(src)
+	body := findFirst(d.Root, "body")
+	if body == nil {
+		return
+	}
+	var sb strings.Builder
+	d.encodeTree(body, &sb)
+	distiller.VerifRemoveDuplicateAttributes(body)
+	c.add(sb.String(), elemAttrsLine(body), replay)
+}
+
 func addAbsURLCase(c *Corr, src string, pageURL *nurl.URL, replay interface{}) {
 	d := parseDoc(src)
 	body := findFirst(d.Root, "body")
 	if body == nil {
 		return
 	}
+	// as in the pipeline: the absolutising passes only ever see the converter's clone, from
+	// which repeated attributes have been removed
+	distiller.VerifRemoveDuplicateAttributes(body)
 	var sb strings.Builder
 	d.encodeTree(body, &sb)
 	seen := map[string]bool{}
